@@ -256,7 +256,7 @@ def reDashComma : Re := .alt (.byte 45) (.byte 44)
 def exLine : Bytes := [97, 45, 98, 44, 44, 99]
 
 /-- `-e '[-,]' -f 2:3`, with `-g` and `-r` as given -/
-def exOpt (g : Bool) (r : Option Bytes) : Opt :=
+def exOptRe (g : Bool) (r : Option Bytes) : Opt :=
   { delimiter := [], bounds := ⟨[.bound { l := .some 2, r := .some 3, isLast := true }], .some 3⟩,
     greedyDelimiter := g, replaceDelimiter := r, regexBag := some (Re.bag reDashComma) }
 
@@ -268,23 +268,23 @@ example : (Re.bag reDashComma).greedy exLine = [(1, 2), (3, 5)] := by
 
 section
 local macro "eval_cut" : tactic => `(tactic|
-  simp [cutStrCore, exOpt, exLine, Re.bag, Re.findIter, Re.findIterAux, Re.matchLen, Re.run,
+  simp [cutStrCore, exOptRe, exLine, Re.bag, Re.findIter, Re.findIterAux, Re.matchLen, Re.run,
     reDashComma, fillWithFieldsLocationsUsingRegex, rangesBetweenMatches, emitRecord, outputLoop,
     outputBof, UserBounds.tryIntoRange, rangeStart, rangeEnd, writeMaybeAsJson,
     maybeReplaceDelimiter, replaceMatches, slice, Run.seq, Run.ok, Run.empty])
 
 /-- fields `a | b | "" | c`: `2:3` is `b,` -/
-example : (cutStrCore exLine (exOpt false none) [10]).1 = Run.ok [98, 44, 10] := by eval_cut
+example : (cutStrCore exLine (exOptRe false none) [10]).1 = Run.ok [98, 44, 10] := by eval_cut
 
 /-- `-g`: fields `a | b | c`: `2:3` is `b,,c` -/
-example : (cutStrCore exLine (exOpt true none) [10]).1 = Run.ok [98, 44, 44, 99, 10] := by eval_cut
+example : (cutStrCore exLine (exOptRe true none) [10]).1 = Run.ok [98, 44, 44, 99, 10] := by eval_cut
 
 /-- `-r '$0x'`: `b$0x` — the replacement is copied, `$0` is not expanded -/
-example : (cutStrCore exLine (exOpt false (some [36, 48, 120])) [10]).1 =
+example : (cutStrCore exLine (exOptRe false (some [36, 48, 120])) [10]).1 =
     Run.ok [98, 36, 48, 120, 10] := by eval_cut
 
 /-- `-g -r '$0x'`: `b$0x$0xc` — once per match of `RE` in the run -/
-example : (cutStrCore exLine (exOpt true (some [36, 48, 120])) [10]).1 =
+example : (cutStrCore exLine (exOptRe true (some [36, 48, 120])) [10]).1 =
     Run.ok [98, 36, 48, 120, 36, 48, 120, 99, 10] := by eval_cut
 end
 
